@@ -67,12 +67,19 @@ type c15Base struct {
 func c15BaseScripts() []c15Base {
 	q := c15QuickShapes()
 	var out []c15Base
+	var pairs []c15Pair
 	for i := range q {
 		a, b := q[i], q[(i+3)%len(q)]
 		if a.Variant == "goaway" {
 			a, b = b, a
 		}
-		p := c15Pair{a, b}
+		pairs = append(pairs, c15Pair{a, b})
+	}
+	// header blocks of 3 and 4 fragments (HEADERS + 2..3 CONTINUATION) in the request
+	// headers, response headers, trailers and trailers-only block
+	ch := c15ChainShapes(false)
+	pairs = append(pairs, c15Pair{ch[0], ch[2]}, c15Pair{ch[3], ch[1]})
+	for _, p := range pairs {
 		bt := c15Build(p)
 		var orders [][]byte
 		c15Interleavings(bt.a, bt.b, func(o []byte) { orders = append(orders, append([]byte(nil), o...)) })
@@ -361,7 +368,7 @@ func c15TranspOutcome(kind string, res *c15Result) string {
 		}
 		return 0
 	}
-	key := [5]int{int(kind[0])<<8 | int(kind[1]), b2i(res.BrokenReq), b2i(res.BrokenResp), len(res.Traces), b2i(res.Panic != "")}
+	key := [5]int{int(kind[0])<<16 | int(kind[1])<<8 | int(kind[2]), b2i(res.BrokenReq), b2i(res.BrokenResp), len(res.Traces), b2i(res.Panic != "")}
 	if s, ok := c15OutcomeCache[key]; ok {
 		return s
 	}
@@ -375,7 +382,7 @@ func c15JSON(v any) string { b, _ := json.Marshal(v); return string(b) }
 func TestVerifC15Transp(t *testing.T) {
 	r := rep.New("c15-transp")
 	defer r.Write()
-	r.Rule = "case = one sequence of Read/Write calls on the wrapped conn: (garbage) every byte string up to the bound, after the client preface / instead of it / in the response direction, alone or followed by a well-formed exchange, in one call or one byte per call; (corrupt) every single-field corruption (type: all 255 other values, each flag bit, length +-1, stream id 0/1/3/5/9/reserved bit, first/last payload byte, each preface byte) of every frame of 14 two-call exchanges, the connection ending after the corrupted frame or any later one, whole runs | one byte per call, Close | EOF then Close; (compose) every composition of short exchanges into calls; (inject) every I/O outcome (n zero/partial/full x EOF/timeout/other error, short write) at every call; each as client and as server. Distinct by construction; non-trivial = the tracer has at least one complete frame header to parse"
+	r.Rule = "case = one sequence of Read/Write calls on the wrapped conn: (garbage) every byte string up to the bound, after the client preface / instead of it / in the response direction, alone or followed by a well-formed exchange, in one call or one byte per call; (corrupt) every single-field corruption (type: all 255 other values, each flag bit, length +-1, stream id 0/1/3/5/9/reserved bit, first/last payload byte, each preface byte) of every frame of 16 two-call exchanges (two of them with header blocks of 3-4 fragments), the connection ending after the corrupted frame or any later one, whole runs | one byte per call, Close | EOF then Close; (compose) every composition of short exchanges into calls; (inject) every I/O outcome (n zero/partial/full x EOF/timeout/other error, short write) at every call; each as client and as server. Distinct by construction; non-trivial = the tracer has at least one complete frame header to parse"
 	thorough := rep.Thorough()
 	defer debug.SetGCPercent(debug.SetGCPercent(400))
 	x := c15NewTranspRun(r, thorough)
@@ -465,6 +472,7 @@ func TestVerifC15Transp(t *testing.T) {
 							for _, part := range []string{"whole", "byte"} {
 								for _, fin := range []int{c15FinClose, c15FinEOF} {
 									x.run(&c15TranspCase{Kind: "corrupt", Server: s == 1, Script: si, Unit: ui, Field: c.Field, Value: c.Value, Trunc: tr, Part: part, Fin: fin}, true)
+									r.Count(fmt.Sprintf("corrupt-cases:script-%02d", si), 1)
 								}
 							}
 						}
